@@ -140,8 +140,10 @@ func loadOwnerProxy(dir string, idx, format int, kind, user, name, sk string, sr
 			return nil, "", err
 		}
 	}
-	cc.Complete()
-	pc.Complete(cc.User)
+	if format == 4 { // the loader has completed the file formats already
+		cc.Complete()
+		pc.Complete(cc.User)
+	}
 	var m msg.NewProxy
 	pc.MarshalToMsg(&m)
 	return &m, cc.User, nil
@@ -199,7 +201,7 @@ func cfgCases(cfg *hx.RunCfg, g *gen, dist map[string]int, add func(string, []ma
 				if g.Chance(0.2) {
 					ownerUser = "alice"
 				}
-				sk := g.Pick([]string{"k1", "k2", "long-key-0123456789"})
+				sk := g.Pick([]string{"k1", "K2-MixedCase", "long-key-0123456789", "UPPER_and_lower.Key"})
 				name := fmt.Sprintf("cfg%d", idx)
 				m, user, err := loadOwnerProxy(dir, idx, format, kind, ownerUser, name, sk, src)
 				if err != nil {
